@@ -135,5 +135,12 @@ func c16(r *mon.Run) {
 				t.Sample(map[string]interface{}{"expression": expr, "document": doc})
 			}
 		}}
-	r.Exec(fm, emp, rnd)
+	th := r.Tier == "thorough"
+	sized := mon.Workload{Name: "sized-arrays", N: sizedCount(th), Batch: 500,
+		Describe: func(i int) string { _, _, d := sizedCase(i, th); return d },
+		Do: func(i int, t *mon.Tally) {
+			tree, doc, _ := sizedCase(i, th)
+			c16Check(r, t, "sized-arrays", i, gen.SpellTight(tree), doc)
+		}}
+	r.Exec(fm, emp, rnd, sized)
 }
